@@ -39,6 +39,8 @@ TABLE = {
         "drivers": [
             {"driver": "modes", "required_clauses": ["dispatch-owed", "oneshot", "epoll-table", "callback-legitimacy"]},
             {"driver": "batch", "required_clauses": ["dispatch-owed", "callback-legitimacy", "timer-fire"]},
+            {"driver": "limit", "required_clauses": ["batch-limit"], "shards": 1, "replayable": False},
+            {"driver": "manyready", "required_clauses": ["many-ready"], "shards": 1, "replayable": False},
         ],
     },
     "C05": {
@@ -53,6 +55,7 @@ TABLE = {
         "drivers": [
             {"driver": "wait", "required_clauses": ["wait-request", "wait-slept", "wait-forever", "timer-fire"]},
             {"driver": "timers", "required_clauses": ["wait-request"]},
+            {"driver": "wait-real", "required_clauses": ["real-time-wait"], "shards": 1, "replayable": False},
         ],
     },
     "C06": {
@@ -83,6 +86,7 @@ TABLE = {
             {"driver": "chan-mt", "required_clauses": ["channel-delivery", "channel-closed"],
              "opts": {"quick": {"threads": 2, "len": 2, "preempt": 2}, "thorough": {"threads": 2, "len": 3, "preempt": 3, "wall": 900}}},
             {"driver": "chan-seq", "required_clauses": ["callback-legitimacy", "dispatch-owed"]},
+            {"driver": "limit", "required_clauses": ["batch-limit"], "shards": 1, "replayable": False},
             {"driver": "sync-mt", "required_clauses": ["sync-channel-delivery", "blocking-send-parked", "channel-closed"],
              "opts": {"quick": {"threads": 1, "len": 2, "preempt": 2}, "thorough": {"threads": 2, "len": 2, "preempt": 2, "wall": 1500}}},
         ],
@@ -141,6 +145,8 @@ TABLE = {
             {"driver": "exec-mt", "required_clauses": ["executor-wake", "executor-drop"],
              "opts": {"quick": {"threads": 2, "len": 2, "preempt": 2}, "thorough": {"threads": 2, "len": 3, "preempt": 3, "wall": 900}}},
             {"driver": "exec-seq", "required_clauses": ["callback-legitimacy", "dispatch-owed", "executor-destroyed", "wait-request"]},
+            {"driver": "stream-seq", "required_clauses": ["callback-legitimacy", "dispatch-owed", "epoll-table", "wait-request"]},
+            {"driver": "limit", "required_clauses": ["batch-limit"], "shards": 1, "replayable": False},
         ],
     },
     "C11": {
